@@ -6,6 +6,8 @@ import GeosModel.Model.Kernel.RayCount
 import GeosModel.Model.Kernel.PolyLocate
 import GeosModel.Model.Kernel.SegSeg
 import GeosModel.Model.Kernel.CCW
+import GeosModel.Model.Kernel.PointLocator
+import Driver.GTreeIO
 /-!
 Driver for C07 (`drv_c07 <stream>`).  Doubles arrive as hex bits, are scaled to integers over one common
 power of two (`F64.scaleAll`), and both the specification (`Kernel.*`) and the ported models are evaluated.
@@ -132,10 +134,12 @@ def ringLine (line : String) : String :=
           let model := RayCount.locatePointInRing p ring
           let onl := (edges ring).any (fun e => onSegment e.1 e.2 p)
           let onlModel := RayCount.isOnLine p ring
-          let extra := if model == spec && onl == onlModel then "" else s!" MODEL-DIFFERS-FROM-SPEC:{locTok model}:{onlModel}"
+          let modelPL := PointLocator.locate p (.poly [ring])
+          let extra := if model == spec && onl == onlModel && (simple != "1" || modelPL == spec) then ""
+            else s!" MODEL-DIFFERS-FROM-SPEC:{locTok model}:{onlModel}:{locTok modelPL}"
           let s := locTok spec
           let base := s!"{s} {s} {if onl then 1 else 0} {if spec == .exterior then 0 else 1}"
-          (if simple == "1" then base ++ s!" {s} {s} {if spec == .exterior then 0 else 1}" else base) ++ extra
+          (if simple == "1" then base ++ s!" {s} {s} {if spec == .exterior then 0 else 1} {s}" else base) ++ extra
         | [] => "bad-line"
     | _, _ => "bad-line"
   | _ => "bad-line"
@@ -180,13 +184,66 @@ def polyLine (line : String) : String :=
               let spec := locateInPolygon p rings
               let model := PolyLocate.locatePointInPolygon p rings
               let modelI := PolyLocate.locateIndexed p rings
-              let extra := if model == spec && modelI == spec then "" else s!" MODEL-DIFFERS-FROM-SPEC:{locTok model}:{locTok modelI}"
+              let modelPL := PointLocator.locate p (.poly rings)
+              let extra := if model == spec && modelI == spec && modelPL == spec then ""
+                else s!" MODEL-DIFFERS-FROM-SPEC:{locTok model}:{locTok modelI}:{locTok modelPL}"
               let s := locTok spec
               let hit := if spec == .exterior then 0 else 1
               let inn := if spec == .interior then 1 else 0
-              s!"{s} {s} {hit} {hit} {inn} {inn}" ++ extra
+              s!"{s} {s} {hit} {hit} {inn} {inn} {s} {hit}" ++ extra
           | [] => "bad-line"
     | _, _ => "bad-line"
+  | _ => "bad-line"
+
+/-! ### the general-purpose PointLocator on any geometry -/
+
+partial def ordsG : G → List UInt64
+  | .point s | .lineString s | .linearRing s | .circularString s => s.pts.flatMap fun c => [c.x, c.y]
+  | .polygon sh hs => (sh :: hs).flatMap fun s => s.pts.flatMap fun c => [c.x, c.y]
+  | .compoundCurve gs | .curvePolygon gs | .multiPoint gs | .multiLineString gs | .multiPolygon gs
+  | .multiCurve gs | .multiSurface gs | .collection gs => gs.flatMap ordsG
+
+partial def toGeo (toI : UInt64 → Int) : G → Option PointLocator.Geo
+  | .point s => some (.point (s.pts.head?.map fun c => ⟨toI c.x, toI c.y⟩))
+  | .lineString s | .linearRing s => some (.line (s.pts.map fun c => ⟨toI c.x, toI c.y⟩))
+  | .polygon sh hs => some (.poly ((sh :: hs).map fun s => s.pts.map fun c => ⟨toI c.x, toI c.y⟩))
+  | .multiPoint gs | .multiLineString gs | .multiPolygon gs | .collection gs => (gs.mapM (toGeo toI)).map .coll
+  | _ => none
+
+/-- exact specification of the location in one atomic element (used to cross-check the model): polygons by
+`Kernel.locateInPolygon`, lines by "end point of an open chain / on a segment", points by equality -/
+def specLeaf (p : Pt) : PointLocator.Geo → Option Loc
+  | .point c => some (if c == some p then .interior else .exterior)
+  | .line pts =>
+    let closed := pts.head? == pts.getLast?
+    some (if !closed && (pts.head? == some p || pts.getLast? == some p) then .boundary
+          else if (edges pts).any (fun e => onSegment e.1 e.2 p) then .interior else .exterior)
+  | .poly rings => some (locateInPolygon p rings)
+  | .coll _ => none
+
+def plocLine (line : String) : String :=
+  match Driver.tokens line with
+  | "G" :: px :: py :: "|" :: rest =>
+    match Driver.parseHex64 px, Driver.parseHex64 py, Driver.GTreeIO.parseGeom rest with
+    | some bx, some by', some (gm, []) =>
+      match (bx :: by' :: ordsG gm.g).mapM F64.dyadic with
+      | none => "nonfinite"
+      | some ds =>
+        let e0 := F64.minExp ds
+        let toI (u : UInt64) : Int := match F64.dyadic u with | some d => F64.scaleTo e0 d | none => 0
+        match toGeo toI gm.g with
+        | none => "bad-line"
+        | some g =>
+          let p : Pt := ⟨toI bx, toI by'⟩
+          let isRing := match gm.g with | .linearRing _ => true | _ => false
+          let loc := PointLocator.locate p g isRing
+          -- atomic top-level geometries: the model must be the exact specification
+          let extra := match specLeaf p g with
+            | some sp => if PointLocator.isEmpty g || sp == loc then "" else s!" MODEL-DIFFERS-FROM-SPEC:{locTok sp}"
+            | none => ""
+          let hit := if loc == .exterior then 0 else 1
+          s!"{locTok loc} {hit} {hit}" ++ extra
+    | _, _, _ => "bad-line"
   | _ => "bad-line"
 
 /-! ### segment / segment -/
@@ -262,7 +319,7 @@ def ccwLine (line : String) : String :=
 
 def handlers : List (String × (String → String)) :=
   [ ("orient", orientGrid), ("orientarb", orientArb), ("orientx", orientExact), ("orientf", orientFilter),
-    ("ring", ringLine), ("poly", polyLine), ("segseg", segLine), ("ccw", ccwLine) ]
+    ("ring", ringLine), ("poly", polyLine), ("ploc", plocLine), ("segseg", segLine), ("ccw", ccwLine) ]
 
 end Driver.C07
 
